@@ -919,6 +919,7 @@ def run_line(ctx, spec, terms, kept):
                           dict(spec, what="fixpoint", text=text, text2=text2, level=pname))
             return obj
         parsed = p
+    obj._c07_case = (None, parsed, text)
     # model case
     risky = False
     for f in fields:
@@ -942,8 +943,9 @@ def run_line(ctx, spec, terms, kept):
     except Mismatch as e:
         ctx.violation("%s %s: parsed field has the wrong shape: %s (text %r)" % (kind, ver, e, text), dict(spec, what="shape", text=text))
         return obj
-    terms.append("(%s, %s, %s, %s)" % (nm, clist(vin), cstr(text), clist(vout)))
+    terms.append([nm, clist(vin), cstr(text), clist(vout), None])  # the texts after the read-only uses are filled in by run_uses
     kept.append(dict(spec, text=text))
+    obj._c07_case = (terms[-1], parsed, text)
     return obj
 
 
@@ -1047,6 +1049,128 @@ def run_to_v1(ctx, spec, obj, pitch_terms, pitch_kept):
         bad.append("converted line cannot be written/read: %r" % (e,))
     if bad:
         ctx.violation("to_v1(%s %s) changes content: %s" % (kind, spec["ver"], "; ".join(bad[:4])), rep)
+        return None
+    return q
+
+
+# ----------------------------------------------------------------------------
+# O2 with a history: read-only uses of a line's fields may not change what the line writes
+
+
+def line_fracs(L, fields):
+    """[(label, duration object)] of a line object (time-signature components included)."""
+    out = []
+    for f in fields:
+        try:
+            v = getattr(sub_of(L, f.owner), f.name)
+        except AttributeError:
+            continue
+        for k, x in enumerate(frac_objs(v)):
+            out.append(("%s%s%s" % ((f.owner + ".") if f.owner else "", f.name, "[%d]" % k if not hasattr(v, "numerator") else ""), x))
+    return out
+
+
+def field_uses(L, fields, parsed):
+    """The read-only uses, one thunk each: [(description, thunk)]."""
+    L0, L1, U, B, IM = mods()
+    uses = []
+    fr = line_fracs(L, fields)
+    for na, a in fr:
+        for nb, b in fr:
+            uses.append(("%s + %s" % (na, nb), lambda a=a, b=b: a + b))
+            uses.append(("sum([%s, %s])" % (na, nb), lambda a=a, b=b: sum([a, b])))
+            uses.append(("%s == %s" % (na, nb), lambda a=a, b=b: ((a == b), (a != b))))
+        uses.append(("%s + 1" % na, lambda a=a: a + 1))
+        uses.append(("2 + %s" % na, lambda a=a: 2 + a))
+        uses.append(("float/str/format of %s" % na, lambda a=a: (float(a), str(a), U.format_fractional(a), U.format_fractional_rational(a))))
+    for f in fields:
+        try:
+            v = getattr(sub_of(L, f.owner), f.name)
+        except AttributeError:
+            continue
+        if isinstance(v, list):
+            uses.append(("reading the list %s" % f.name, lambda v=v: (sorted(map(str, v)), v + ["x"], len(v), ("grace" in v))))
+        elif isinstance(v, (U.MatchKeySignature, U.MatchTimeSignature)):
+            uses.append(("str/== of %s" % f.name, lambda v=v: (str(v), (v == v), [str(o) for o in (v.other_components or [])])))
+    uses.append(("str/repr/==/check_types of the line", lambda: (str(L), repr(L), (L == parsed), quiet_call(L.check_types))))
+    return uses
+
+
+def run_uses(ctx, spec, obj, converted=None, pinpoint=False):
+    """After the line was written and parsed: use the fields of the generated object and of the parsed
+    one the way client code does without assigning anything (sums of durations, comparisons,
+    formatting, conversion to 1.0.0) and write both again.  pinpoint: write after every single use
+    and return the first use that changes a text."""
+    L0, L1, U, B, IM = mods()
+    case, parsed, text = obj._c07_case
+    kind, ver = spec["kind"], tuple(spec["ver"])
+    nm, elems, fields = schemas()[(kind, ver)]
+    rep = dict(spec, what="history", text=text)
+    lines = [["generated", obj, text], ["parsed", parsed, text]]
+    if converted is not None:
+        try:
+            lines.append(["converted", converted, converted.matchline])
+        except Exception:
+            pass
+
+    def changed():
+        for name, L, want in lines:
+            try:
+                t = L.matchline
+            except Exception as e:
+                t = "<%r>" % (e,)
+            if t != want:
+                return name, want, t
+        return None
+
+    nsums = 0
+    for name, L, want in list(lines):
+        if name == "converted":  # the 1.0.0 line made by to_v1 may share field objects with the old line
+            flds = [Field(o, fn, None, None, None, None) for o in (None, "snote", "note", "stime", "ptime")
+                    if o is None or hasattr(L, o) for fn in getattr(sub_of(L, o), "field_names", ())]
+        else:
+            flds = fields
+        uses = field_uses(L, flds, parsed)
+        if name != "converted" and ver != V1 and kind.partition(":")[0] not in ("snote", "note"):
+            uses.append(("to_v1 of the line and writing the result", lambda L=L: (lambda q: (q.matchline, str(q)))(quiet_call(L1.to_v1, L))))
+        for what, thunk in uses:
+            try:
+                thunk()
+            except Exception as e:
+                if " + " in what or what.startswith("sum("):
+                    if pinpoint:
+                        return "%s on the %s line raises %r" % (what, name, e)
+                    ctx.violation("%s %s: %s on the %s line raises %r" % (kind, spec["ver"], what, name, e), rep)
+                    return None
+                continue  # whether str()/to_v1 work at all is not this clause's business (run_to_v1 judges to_v1)
+            nsums += (" + " in what)
+            if pinpoint:
+                c = changed()
+                if c:
+                    return "%s on the %s line: the %s line wrote %r, now writes %r" % (what, name, c[0], c[1], c[2])
+    if pinpoint:
+        return None
+    ctx.evaluations += 1
+    if nsums:
+        ctx.count("history:lines_with_duration_sums")
+    c = changed()
+    if c:
+        ctx.count("history:text_changed")
+        if ctx.counts["history:text_changed"] <= 3:
+            why = None
+            try:  # name the first use that does it, on fresh objects
+                o2 = construct(kind, ver, {(o, n): to_py(t) for o, n, t in spec["fields"]})
+                o2._c07_case = (None, type(o2).from_matchline(o2.matchline, version=U.Version(*ver)), o2.matchline)
+                why = run_uses(ctx, spec, o2, None, pinpoint=True)
+            except Exception:
+                pass
+            ctx.violation("%s %s: the text of a line changes through a read-only use of its fields: %s"
+                          % (kind, spec["ver"], why or "the %s line wrote %r, after sums of its durations / comparisons / formatting / to_v1 it writes %r" % c),
+                          dict(rep, line=c[0], after=c[2]))
+        return None
+    if case is not None:
+        case[4] = clist([cstr(text), cstr(text)])
+    return None
 
 
 # ----------------------------------------------------------------------------
@@ -1146,11 +1270,353 @@ def run_fracs(ctx, n):
             continue
         terms.append("(%s, %s)" % (clist([c_frac(p) for p in parts]), c_frac(s)))
         kept.append(rep)
-    failing = ctx.coq_failing("fracadd", "From PV Require Import Model.C07.", "", terms,
+    failing = [] if not terms else ctx.coq_failing("fracadd", "From PV Require Import Model.C07.", "", terms,
                               "fun c => match fst c with [] => false | p :: ps => frac_eqb (fold_left frac_add ps p) (snd c) end")
     ctx.obligation("correspondence: model frac_add = FractionalSymbolicDuration.__add__ on %d sums (incl. above the bound)" % len(terms), not failing, failing[:5])
     for i in failing[:5]:
         ctx.violation("model/implementation disagree on duration addition", kept[i])
+
+
+# ----------------------------------------------------------------------------
+# O4 with a history: programs of operations on SHARED duration objects.  After every step every
+# live object is looked at again (state, text, text -> parse -> text, value); an addition may not
+# change its operands.
+
+BOUND = 1024
+MUSICAL_DENS = [1, 2, 4, 4, 8, 8, 16, 16, 32, 64, 3, 6, 12, 24]
+
+
+def fsd_state(x):
+    """Exact state (numerator, denominator, tuple_div, components) of an implementation object."""
+    n, d = x.numerator, x.denominator
+    if int(n) != n or int(d) != d:
+        raise Mismatch("non-integral fraction %r/%r" % (n, d))
+    td = None if x.tuple_div is None else int(x.tuple_div)
+    cs = None if x.add_components is None else [(int(a), int(b), None if c is None else int(c)) for a, b, c in x.add_components]
+    return (int(n), int(d), td, cs)
+
+
+def ref_str3(n, d, td):
+    if td is None:
+        return str(n) if d == 1 else "%d/%d" % (n, d)
+    return "%d/%d/%d" % (n, d, td)
+
+
+class Ref:
+    """Independent description of a duration object: its fields as the statement of the property fixes
+    them (n is None: numerator/denominator are left to bound_integers and taken from the implementation;
+    cu: so are the components), the exact value it stands for, and whether that value is claimed
+    (ok: every lcm form on the way stayed within the bound)."""
+
+    def __init__(self, n, d, td, comps, exact, ok, cu=False):
+        self.n, self.d, self.td, self.comps, self.exact, self.ok, self.cu = n, d, td, comps, exact, ok, cu
+
+    def triples(self):
+        if self.cu:
+            return None
+        if self.comps is not None:
+            return list(self.comps)
+        return None if self.n is None else [(self.n, self.d, self.td)]
+
+    def fields(self):
+        return (self.n, self.d, self.td, self.comps)
+
+    def text(self):
+        return ref_str3(self.n, self.d, self.td) if self.comps is None else "+".join(ref_str3(*c) for c in self.comps)
+
+
+def ref_new(n, d, td, log=None):
+    exact = Fraction(n, d * (td or 1))
+    if n <= BOUND and d <= BOUND:
+        return Ref(n, d, td, None, exact, True)
+    if log is not None:
+        log.append(("raw", n, d))
+    return Ref(None, None, td, None, exact, False)
+
+
+def ref_add(a, b, log=None):
+    ta, tb = a.triples(), b.triples()
+    cu = ta is None or tb is None
+    comps = None if cu else [c for c in ta + tb if c[0] != 0]
+    if a.n is None or b.n is None:  # an operand bounded out of sight (inside sum() / from_string)
+        if log is not None:
+            log.append(("hidden",))
+        return Ref(None, None, None, comps, a.exact + b.exact, False, cu)
+    d1, d2 = a.d * (a.td or 1), b.d * (b.td or 1)
+    nd = d1 * d2 // math.gcd(d1, d2)
+    nn = (nd // d1) * a.n + (nd // d2) * b.n
+    if nn <= BOUND and nd <= BOUND:
+        return Ref(nn, nd, None, comps, a.exact + b.exact, a.ok and b.ok, cu)
+    if log is not None:
+        log.append(("raw", nn, nd))
+    return Ref(None, None, None, comps, a.exact + b.exact, False, cu)
+
+
+def ref_sum(parts, log=None):
+    acc = ref_add(parts[0], ref_new(0, 1, None), log)
+    for p in parts[1:]:
+        acc = ref_add(acc, p, log)
+    return acc
+
+
+def ref_parse(text, log=None):
+    def simple(t):
+        xs = [int(x) for x in t.split("/")]
+        return ref_new(xs[0], xs[1] if len(xs) > 1 else 1, xs[2] if len(xs) > 2 else None, log)
+    parts = text.split("+")
+    return simple(parts[0]) if len(parts) == 1 else ref_sum([simple(p) for p in parts], log)
+
+
+def g_prog_triple(rng, mode):
+    if mode == "small":
+        n = rng.choice([0, 1, 1, 1, 2, 3, 3, 5, 7])
+        d = rng.choice(MUSICAL_DENS)
+        td = None if rng.random() < 0.7 else rng.choice([3, 3, 5, 6, 7])
+        return n, d, td
+    n, d, td = g_simple_frac(rng, small=(mode == "mid"))
+    return n, max(1, d), td
+
+
+def g_frac_prog(rng):
+    """A program: 2-4 objects built from text or numbers, then 4-9 operations re-using earlier
+    operands and results on either side."""
+    mode = "small" if rng.random() < 0.7 else ("mid" if rng.random() < 0.7 else "wild")
+    steps, ids, with_comps = [], [], []
+
+    def fresh():
+        ids.append("o%d" % len(ids))
+        return ids[-1]
+
+    for _ in range(rng.choice([2, 2, 3, 4])):
+        if rng.random() < 0.65:
+            k = rng.choice([1, 2, 2, 3])
+            ts = []
+            for _ in range(k):
+                n, d, td = g_prog_triple(rng, mode)
+                ts.append(ref_str3(max(n, 1) if k > 1 and rng.random() < 0.9 else n, d, td))
+            i = fresh()
+            steps.append(["parse", i, "+".join(ts)])
+            if k > 1:
+                with_comps.append(i)
+        else:
+            steps.append(["new", fresh()] + list(g_prog_triple(rng, mode)))
+    for _ in range(rng.randint(4, 9)):
+        r = rng.random()
+
+        def pick(left=False):
+            if left and with_comps and rng.random() < 0.6:  # an operand that already has components, on the left
+                return rng.choice(with_comps)
+            return rng.choice(ids)
+        if r < 0.45:
+            a, b = pick(True), pick()
+            if rng.random() < 0.3:
+                a, b = b, a
+            i = fresh()
+            steps.append(["add", i, a, b])
+        elif r < 0.55:
+            a = pick(True)
+            i = fresh()
+            steps.append(["addint", i, a, rng.choice([0, 0, 1, 2, 3])])
+        elif r < 0.63:
+            a = pick(True)
+            i = fresh()
+            steps.append(["raddint", i, rng.choice([0, 1, 2]), a])
+        elif r < 0.75:
+            ops = [pick(True)] + [pick() for _ in range(rng.choice([1, 1, 2]))]
+            i = fresh()
+            steps.append(["sum", i, ops])
+        else:
+            steps.append(["use", rng.choice(["eq", "ne", "float", "str", "fmt", "fmtrat"]), pick(), pick()])
+            continue
+        with_comps.append(i)
+    return steps
+
+
+def prog_valid(steps):
+    seen = set()
+    for s in steps:
+        refs = {"parse": [], "new": [], "add": s[2:4], "addint": s[2:3], "raddint": s[3:4], "sum": s[2] if s[0] == "sum" else [], "use": s[2:4]}[s[0]]
+        if any(r not in seen for r in refs):
+            return False
+        if s[0] != "use":
+            if s[1] in seen:
+                return False
+            seen.add(s[1])
+    return True
+
+
+def exec_frac_prog(steps, trace=None):
+    """Run a program on the implementation, checking the statement of the property after every step.
+    Returns None or a text saying what went wrong.  trace (a list) receives, per step, the Coq step
+    term, the text of every live object and the fields of the created object; a final 'skip' when the
+    exact-rational model is not applicable (near-tie of bound_integers, or bound_integers applied out
+    of sight inside sum() to something that is added to again)."""
+    L0, L1, U, B, IM = mods()
+    F = U.FractionalSymbolicDuration
+    objs, ref, snap, order, log = {}, {}, {}, [], []
+    first_bad = None
+
+    def value(st):
+        return Fraction(st[0], st[1] * (st[2] or 1))
+
+    def look(i, when):
+        """fields, text, text -> parse -> text and value of live object i; None or a complaint"""
+        x, r = objs[i], ref[i]
+        try:
+            st = fsd_state(x)
+            text = str(x)
+        except Exception as e:
+            return "%s: duration %s cannot be inspected: %r" % (when, i, e)
+        if i in snap:
+            st0, text0 = snap[i]
+            if text != text0:
+                return "%s: duration %s, created as %r, now prints as %r (its value is still %s)" % (when, i, text0, text, value(st))
+            if st != st0:
+                return "%s: duration %s (%r) changed its fields from %r to %r" % (when, i, text0, st0, st)
+        else:
+            if r.n is None:  # numerator/denominator left to bound_integers
+                r.n, r.d = st[0], st[1]
+            if r.cu:
+                r.comps, r.cu = st[3], False
+            if st != r.fields():
+                return "%s: duration %s has fields %r, expected %r" % (when, i, st, r.fields())
+            if text != r.text():
+                return "%s: duration %s with fields %r prints as %r, expected %r" % (when, i, st, text, r.text())
+            if r.ok:
+                if value(st) != r.exact:
+                    return "%s: duration %s has value %s, exact value %s" % (when, i, value(st), r.exact)
+                if abs(Fraction(float(x)) - r.exact) > abs(r.exact) * Fraction(1, 10 ** 12):
+                    return "%s: float(%s) = %r, exact value %s" % (when, text, float(x), r.exact)
+            snap[i] = (st, text)
+        if text == "":
+            return None  # a sum whose components all vanished (0 + 0): counted by the caller
+        try:
+            p = quiet_call(U.interpret_as_fractional, text)
+            pst, ptext = fsd_state(p), str(p)
+        except Exception as e:
+            return "%s: text %r of duration %s is not read back: %r" % (when, text, i, e)
+        if ptext != text:
+            return "%s: text %r of duration %s is read back and printed as %r" % (when, text, i, ptext)
+        pr = ref_parse(text)
+        if pr.ok and r.ok and value(pst) != r.exact:
+            return "%s: text %r of duration %s (value %s) is read back with value %s" % (when, text, i, r.exact, value(pst))
+        if pr.n is not None and not pr.cu and pst != pr.fields():
+            return "%s: text %r is read as %r, expected %r" % (when, text, pst, pr.fields())
+        return None
+
+    for k, s in enumerate(steps):
+        op = s[0]
+        when = "step %d %s" % (k, json.dumps(s))
+        new, r, cterm, operands = None, None, "SNop", []
+        try:
+            if op == "parse":
+                new, r, cterm = quiet_call(U.interpret_as_fractional, s[2]), ref_parse(s[2], log), "(SParse %s)" % cstr(s[2])
+            elif op == "new":
+                new, r = F(s[2], s[3], s[4]), ref_new(s[2], s[3], s[4], log)
+                cterm = "(SNew %s %s %s)" % (cz(s[2]), cz(s[3]), copt(s[4], cz))
+            elif op == "add":
+                operands = [s[2], s[3]]
+                new, r = objs[s[2]] + objs[s[3]], ref_add(ref[s[2]], ref[s[3]], log)
+                cterm = "(SAdd %s %s)" % (cnat(order.index(s[2])), cnat(order.index(s[3])))
+            elif op == "addint":
+                operands = [s[2]]
+                new, r = objs[s[2]] + s[3], ref_add(ref[s[2]], ref_new(s[3], 1, None), log)
+                cterm = "(SAddInt %s %s)" % (cnat(order.index(s[2])), cz(s[3]))
+            elif op == "raddint":
+                operands = [s[3]]
+                new, r = s[2] + objs[s[3]], ref_add(ref[s[3]], ref_new(s[2], 1, None), log)
+                cterm = "(SRAddInt %s %s)" % (cz(s[2]), cnat(order.index(s[3])))
+            elif op == "sum":
+                operands = list(s[2])
+                new, r = sum([objs[i] for i in s[2]]), ref_sum([ref[i] for i in s[2]], log)
+                cterm = "(SSum %s)" % clist([cnat(order.index(i)) for i in s[2]])
+            else:
+                a, b = objs[s[2]], objs[s[3]]
+                operands = [s[2], s[3]]
+                same_fields = snap[s[2]][0] == snap[s[3]][0]
+                if s[1] == "eq":
+                    e = bool(a == b)
+                    if same_fields and not e:
+                        return "%s: durations with equal fields %r compare unequal" % (when, snap[s[2]][0])
+                    if ref[s[2]].ok and ref[s[3]].ok and ref[s[2]].exact != ref[s[3]].exact and e:
+                        return "%s: durations of different value (%s, %s) compare equal" % (when, ref[s[2]].exact, ref[s[3]].exact)
+                elif s[1] == "ne":
+                    if bool(a != b) and same_fields:
+                        return "%s: durations with equal fields %r compare different" % (when, snap[s[2]][0])
+                elif s[1] == "float":
+                    float(a), float(b)
+                elif s[1] == "str":
+                    str(a), repr(b)
+                elif s[1] == "fmt":
+                    U.format_fractional(a), U.format_fractional([a, b])
+                else:
+                    U.format_fractional_rational(a)
+        except Mismatch as e:
+            return "%s: %s" % (when, e)
+        except Exception as e:
+            return "%s raises %r" % (when, e)
+        bad = None
+        for i in operands:  # an operation may not change its operands
+            bad = bad or look(i, when + ": operand afterwards")
+        if new is not None:
+            if any(new is o for o in objs.values()):
+                return "%s returns one of the existing objects instead of a new duration" % when
+            i = s[1]
+            objs[i], ref[i] = new, r
+            order.append(i)
+            bad = bad or look(i, when + ": result")
+        for i in order:  # every live object, again
+            bad = bad or look(i, when + ": afterwards")
+        if bad and trace is None:
+            return bad
+        first_bad = first_bad or bad
+        if trace is not None:  # what the implementation shows NOW (not the snapshots), for the model
+            try:
+                trace.append((cterm, [str(objs[i]) for i in order], fsd_state(new) if new is not None else None))
+            except Exception as e:
+                return first_bad or "%s: %r" % (when, e)
+    if trace is not None and any(e[0] == "hidden" or py_bound_risky(e[1], e[2]) for e in log):
+        trace.append("skip")
+    return first_bad
+
+
+def c_state(st):
+    n, d, td, cs = st
+    return "(mkfrac %s %s %s %s)" % (cz(n), cz(d), copt(td, cz), copt(cs, lambda l: clist([c_triple(c) for c in l])))
+
+
+def run_frac_programs(ctx, n):
+    rng = ctx.rng
+    terms, kept = [], []
+    for _ in range(n):
+        steps = g_frac_prog(rng)
+        trace = []
+        bad = exec_frac_prog(steps, trace)
+        ctx.evaluations += len(steps)
+        ctx.count("frac_prog:steps", len(steps))
+        ctx.nontrivial(("fracprog", json.dumps(steps)))
+        if bad:
+            ctx.count("frac_prog:oracle_complaints")
+            if ctx.counts["frac_prog:oracle_complaints"] <= 3:
+                small = core.ddmin(steps, lambda sub: prog_valid(sub) and exec_frac_prog(sub) is not None)
+                small = small if prog_valid(small) and exec_frac_prog(small) else steps
+                ctx.violation("duration history: " + (exec_frac_prog(small) or bad), {"kind": "frac_prog", "steps": small})
+            if len(trace) < len(steps) or ctx.counts["frac_prog:oracle_complaints"] > 40:
+                continue  # the run broke off; nothing to show the model
+        if trace and trace[-1] == "skip":
+            ctx.count("frac_prog:model_skipped(bound near-tie or bound inside sum)")
+            continue
+        if any(t == "" for _, texts, _ in trace for t in texts):
+            ctx.count("frac_prog:with_empty_text(all components vanished)")
+        terms.append(clist(["(%s, (%s, %s))" % (c, clist([cstr(t) for t in texts]), copt(st, c_state)) for c, texts, st in trace]))
+        kept.append({"kind": "frac_prog", "steps": steps})
+    for k in kept[:1]:
+        ctx.sample(k)
+    failing = [] if not terms else ctx.coq_failing("fracprog", "From PV Require Import Model.C07.", "", terms, "prog_check []", shard=60)
+    ctx.obligation("correspondence: after EVERY step of %d duration programs (shared operands, +, int +, radd, sum, parse) every live "
+                   "object's text and fields = the model's pure value (prog_check)" % len(terms), not failing, failing[:5])
+    for i in failing[:5]:
+        ctx.violation("model and implementation disagree on a duration history", dict(kept[i], what="model"))
 
 
 # ----------------------------------------------------------------------------
@@ -1196,7 +1662,12 @@ def run(ctx):
                 "components, numerators/denominators around 1024, 4/5/2-decimal times on the grid, at decimal boundaries x.xxxx5 and "
                 "at exact binary ties, attribute lists of length 0-5, keys -7..7 x mode x alternative key, time signatures, ticks, "
                 "controller values).  Every distinct generated line counts as non-trivial (each one is written, parsed at class and "
-                "file level, compared field by field and written again); plus every row of the key table and every distinct sum of durations.")
+                "file level, compared field by field, written again, and written once more after read-only uses of its fields: sums of its "
+                "durations in both orders, int +, sum(), comparisons, formatting, to_v1); plus every row of the key table, every distinct "
+                "sum of durations and every distinct duration program (2-4 durations from text a, a/b, a/b/c with 1-3 additive components or "
+                "from numbers, then 4-9 operations + / int + / radd / sum / ==, float, str re-using earlier operands and results on either "
+                "side, x + x included; 70% musical values within the bound, 30% around 1024 and above; after every step every live object "
+                "is inspected).")
     ctx.trusted = ["Coq 8.16.1 kernel incl. vm_compute", "reflector + generators + Python<->Coq value printers in harness/props/c07.py",
                    "Python re / str.format (the model's scanner is validated against them on generated lines only)",
                    "determinism of the tabulated key-signature functions"]
@@ -1230,25 +1701,31 @@ def run(ctx):
         ctx.nontrivial(json.dumps(spec, sort_keys=True))
         if len(ctx.violations) - nviol0 > 25:
             break
-        if obj is not None and tuple(spec["ver"]) != V1 and before == len(ctx.violations) + sum(ctx.known_hits.values()):
-            run_to_v1(ctx, spec, obj, pterms, pkept)
+        clean = lambda: before == len(ctx.violations) + sum(ctx.known_hits.values())
+        q = None
+        if obj is not None and tuple(spec["ver"]) != V1 and clean():
+            q = run_to_v1(ctx, spec, obj, pterms, pkept)
+        if obj is not None and clean() and getattr(obj, "_c07_case", None) is not None:
+            run_uses(ctx, spec, obj, q)
     for s in kept[:3]:
         ctx.sample(s)
     if not ok:
         if len(ctx.violations) == nviol0:
             ctx.violation("proof obligations of Props/C07.v no longer check: " + why, {"theorem_or_build": why}, no_input=True)
         return
-    failing = ctx.coq_failing("lines", "From PV Require Import Model.C07 Gen.C07_Schemas.", "", terms, "check_case key_tab", shard=300)
-    ctx.obligation("correspondence: model format_line / parse_line / round trip / fields_ok / second text = implementation on %d generated lines of %d schemas"
-                   % (len(terms), len(S)), not failing, failing[:5])
+    terms = ["(%s, %s, %s, %s, %s)" % (a, b, c, d, e if e is not None else "[]") for a, b, c, d, e in terms]
+    failing = [] if not terms else ctx.coq_failing("lines", "From PV Require Import Model.C07 Gen.C07_Schemas.", "", terms, "check_case_hist key_tab", shard=300)
+    ctx.obligation("correspondence: model format_line / parse_line / round trip / fields_ok / second text / text after read-only uses of the fields "
+                   "= implementation on %d generated lines of %d schemas" % (len(terms), len(S)), not failing, failing[:5])
     for i in failing[:5]:
         ctx.violation("model and implementation disagree on line %r" % kept[i]["text"], dict(kept[i], what="model"))
-    failing = ctx.coq_failing("pitch", "From PV Require Import Model.C07.", "", pterms,
+    failing = [] if not pterms else ctx.coq_failing("pitch", "From PV Require Import Model.C07.", "", pterms,
                               "fun c => match c with (s, a, o, m) => match midi_pitch s a o with Some x => Z.eqb x m | None => false end end")
     ctx.obligation("correspondence: to_v1 MIDI pitch = model midi_pitch on %d converted notes" % len(pterms), not failing, failing[:5])
     for i in failing[:5]:
         ctx.violation("to_v1 pitch differs from the model", pkept[i])
     run_fracs(ctx, 600 if ctx.tier == "quick" else 12000)
+    run_frac_programs(ctx, 300 if ctx.tier == "quick" else 6000)
     ctx.extra["class_x_version_coverage"] = {k: v for k, v in sorted(ctx.counts.items()) if "@" in k}
     ctx.extra["schemas_reflected"] = len(S)
 
@@ -1277,6 +1754,37 @@ def replay(obj):
                 print("to_v1  :", L1.to_v1(o).matchline)
             except Exception as e:
                 print("to_v1 failed:", repr(e))
+        if r.get("what") == "history":
+            p = type(o).from_matchline(t, version=V)
+            for L in (o, p):
+                fr = [x for fn in L.field_names for x in frac_objs(getattr(L, fn, None))]
+                for sub in ("snote", "stime"):
+                    if hasattr(L, sub):
+                        fr += [x for fn in getattr(L, sub).field_names for x in frac_objs(getattr(getattr(L, sub), fn, None))]
+                for a in fr:
+                    for b in fr:
+                        a + b
+            print("after sums of the durations: generated object writes", o.matchline)
+            print("                             parsed object writes   ", p.matchline)
+    elif r.get("kind") == "frac_prog":
+        F = U.FractionalSymbolicDuration
+        env = {}
+        for st in r["steps"]:
+            op = st[0]
+            if op == "parse":
+                env[st[1]] = U.interpret_as_fractional(st[2])
+            elif op == "new":
+                env[st[1]] = F(st[2], st[3], st[4])
+            elif op == "add":
+                env[st[1]] = env[st[2]] + env[st[3]]
+            elif op == "addint":
+                env[st[1]] = env[st[2]] + st[3]
+            elif op == "raddint":
+                env[st[1]] = st[2] + env[st[3]]
+            elif op == "sum":
+                env[st[1]] = sum([env[i] for i in st[2]])
+            print("after", json.dumps(st), ":", {k: "%s (= %s/%s)" % (str(v), v.numerator, v.denominator * (v.tuple_div or 1)) for k, v in env.items()})
+        print("oracle :", exec_frac_prog(r["steps"]) or "no complaint")
     elif r.get("kind") == "frac_add":
         F = U.FractionalSymbolicDuration
         parts = [F(*c) for c in r["comps"]]
